@@ -279,3 +279,9 @@ def estimate_per_filterbank(vc):
                   And(isinstance(cs, SArr) and cs.ndim == 1, eq(cs.shape[0], 2), eq(cs.at((0,)), want_r), eq(cs.at((1,)), want_i), out.value is cs) if isinstance(cs, SArr) and want_r is not None else False)
     vc.cover('reachable')
     vc.ensure('C14/estimate_channelized_stds/post/each-filterbank-holds-its-own-estimate', fbs[0].fields['channelized_stds'] is not fbs[1].fields['channelized_stds'])
+
+
+# "at most its number of blocks": the clamp of the requested length to the input and everything reported from the clamped count - C20's
+# contract for record() on input data, discharged again here (this is the clause the name of requantize_required_and_block_clamp promises)
+from . import c20 as _C20
+contract('C14', 'length_clamped_to_the_input', functions=[BK + '.record'])(_C20.record_clamped)
